@@ -41,10 +41,15 @@ THOROUGH = QUICK + [
     ('halfhour_grid', dict(T=4, freq='30min', orders=((0, 2, 2.0), (1, 4, -1.5))), 'A'),
     ('ob_last', dict(T=3, ob_last=True, orders=((0, 2, 2.0), (1, 3, -1.5), (6, 7, 1.0))), 'A'),
     ('symbolic_capacity_T3', dict(T=3, orders=((0, 2, 2.0), (1, 3, -1.5), (-1, 1, 1.0))), 'B'),
+    # deeper: six steps and six orders (nested, straddling both ends, one outside), full execution on a DST day, half-step borders with discounting
+    ('six_orders_T6_wacc', dict(T=6, wacc=True, orders=((0, 6, 1.0), (1, 3, -2.0), (2, 5, 1.5), (-1, 2, -0.5), (4, 8, 2.5), (7, 9, 1.0))), 'A'),
+    ('full_exec_dst_daily_grid', dict(T=4, freq=('d', '2021-03-27', '2021-03-31', 'CET'), full_exec=True, orders=((0, 2, 2.0), (1, 4, -1.5), (1, 2, 1.0))), 'A'),
+    ('orders_inside_steps_T5_wacc_daily', dict(T=5, freq='d', wacc=True, orders=((0.5, 4.5, 2.0), (1.75, 2.25, -1.5), (2, 4.01, 1.0), (4.99, 5, 1.0))), 'A'),
+    ('dataframe_T5_ob_last', dict(T=5, as_frame=True, ob_last=True, orders=((0, 3, 2.0), (2, 5, -1.5), (1, 2, 1.0), (3, 4, -0.5))), 'A'),
 ]
 BOUNDS = dict(quick='order lists %s; T<=4; <=4 orders; capacities concrete at Level A (symbolic in symbolic_capacity)' % [c[0] for c in QUICK],
               thorough='order lists %s' % [c[0] for c in THOROUGH])
-OUTSIDE = ['more than 4 orders / T>4', 'order books on coarse frequency (EAO raises)']
+OUTSIDE = ['more than 4 orders / T>4 (quick), more than 6 orders / T>6 (thorough)', 'order books on coarse frequency (EAO raises)']
 TRUSTED = ['vf/refmodel.py (orderbook clause)']
 
 
